@@ -55,6 +55,7 @@ CFGS_QUICK = [
 CFGS_EXTRA = [(2, 3, 64, "RC4", True), (2, 3, 80, "RC4", True), (2, 3, 96, "RC4", True), (2, 3, 104, "RC4", True), (2, 3, 120, "RC4", True)]
 
 EMPTY_STYLES = ["full", "bare", "iv-only"]
+WRONG_PW = "nope"
 P_POOL = [-44, -4, -3904, -3900, -3896, -3888, -1]
 ID_POOL = [bytes(range(0x30, 0x40)), None]
 
@@ -82,6 +83,8 @@ META = {
         "SASLprep expectations are the RFC 4013 example table plus identity on NFKC-stable Latin/Greek letters; other Unicode passwords not explored",
         "R<=4 passwords: PDFDocEncoding-representable strings only as real passwords; unrepresentable ones only as wrong passwords",
         "xref damage is limited to a startxref that cannot be used (the body is intact); a lost startxref KEYWORD makes PDFXRefFallback.load_trailer take the wrong object ('No /Root object') -- a C02/C13 matter, not generated here",
+        "'pwchar' shards: for V1-V4 (4 configurations) every PDFDocEncoding code with an agreed character (controls 0x00-0x17 except 0x16, 0x18-0x1F accents, 0x80-0x9E, 0xA0, a few Latin-1) as a password character, as user and as owner password; the neighbouring codes' characters must be rejected. U+0016/0x7F/0x9F/0xAD have no agreed encoding and are not generated",
+        "same-parser retry: on every default-dimension document PDFDocument(parser, wrong) then PDFDocument(parser, right) on ONE PDFParser (also right-right, wrong-user-owner) must read back like a fresh open",
         "two-document histories: two documents, one process, sequential interleaving (no threads); reads are in thirds of the object list",
         "not generated: P with reserved-one bits clear, StmF != StrF, per-stream /Crypt filters, public-key handlers, V=3",
         "zero-length strings/streams under AES are written three ways (IV + padding block; nothing; IV only) and must all read back empty",
@@ -118,6 +121,9 @@ def shards(tier):
     for ca in PAIR_CFGS[tier]:
         for cb in PAIR_CFGS[tier]:
             out.append(("pair", ca, cb))
+    for c in PWCHAR_CFGS:
+        for role in ("user", "owner"):
+            out.append(("pwchar", c, role))
     return out
 
 
@@ -279,9 +285,15 @@ def build(p: Params):
     """-> (pdf bytes, model dict, handler, info)"""
     cfg = S.Cfg(*p.cfg)
     doc = plain_doc(p.variant, p.ident)
+    layout, members, W = p.layout, OBJSTM_MEMBERS, (1, 4, 2)
+    if p.layout == "xrefstm0":
+        # third field width 0 (generation / index default to 0): only expressible without object streams and with
+        # every object at generation 0
+        doc.objs = {num: (0, obj) for num, (gen, obj) in doc.objs.items()}
+        layout, members, W = "xrefstm", (), ((1, 2, 0) if p.variant == 0 else (1, 3, 0))
     h = S.Handler(cfg, p.user, p.owner, p.P, p.ident or b"", p.em, p.p_unsigned, salt=(tuple(p.cfg), p.em, p.user, p.owner, p.P),
                   empty_style=p.empty_style)
-    pdf, info = S.write_pdf(doc, h, p.layout, OBJSTM_MEMBERS, p.enc_indirect, p.hexstr, xref_flate=bool(p.variant))
+    pdf, info = S.write_pdf(doc, h, layout, members, p.enc_indirect, p.hexstr, xref_flate=bool(p.variant), W=W)
     pdf = damage_xref(pdf, p.xref_damage)
     model = {num: canon_model(obj) for num, (gen, obj) in doc.objs.items()}
     return pdf, model, h, info, doc
@@ -311,7 +323,8 @@ def expected_text(p: Params) -> str:
     if k not in _TEXT_CACHE:
         from pdfminer.high_level import extract_text
 
-        plain, _ = S.write_pdf(plain_doc(p.variant, bytes(16)), None, p.layout, OBJSTM_MEMBERS)
+        plain, _ = S.write_pdf(plain_doc(p.variant, bytes(16)), None, "xrefstm" if p.layout == "xrefstm0" else p.layout,
+                               () if p.layout == "xrefstm0" else OBJSTM_MEMBERS)
         t = extract_text(io.BytesIO(plain))
         if TEXT not in t:
             raise RuntimeError(f"harness: plaintext document does not extract to the marker text: {t!r}")
@@ -332,12 +345,19 @@ def expected_outcome(p: Params, pw: str) -> str:
     return "open" if ident in (u, o) else "reject"
 
 
-def open_doc(pdf: bytes, pw: str):
+def open_doc(pdf: bytes, pw: str, before=()):
+    """Open with ``pw``; ``before`` = passwords tried first on the SAME PDFParser object (a caller's retry loop)."""
     from pdfminer.pdfdocument import PDFDocument, PDFPasswordIncorrect
     from pdfminer.pdfparser import PDFParser
 
+    parser = PDFParser(io.BytesIO(pdf))
+    for b in before:
+        try:
+            PDFDocument(parser, password=b)
+        except Exception:  # noqa
+            pass
     try:
-        return PDFDocument(PDFParser(io.BytesIO(pdf)), password=pw), None
+        return PDFDocument(parser, password=pw), None
     except PDFPasswordIncorrect:
         return None, "PDFPasswordIncorrect"
     except Exception as e:  # noqa
@@ -359,11 +379,11 @@ def _is_pad_tail(exp: bytes, obs: bytes) -> bool:
     return len(obs) % 16 == 0 and 1 <= len(tail) <= 16 and tail == bytes((len(tail),)) * len(tail)
 
 
-def judge(p: Params, pdf: bytes, model, h, info, pw: str, full: bool) -> Tuple[List[Tuple[str, Any, Any, str]], Any, bool]:
+def judge(p: Params, pdf: bytes, model, h, info, pw: str, full: bool, before=()) -> Tuple[List[Tuple[str, Any, Any, str]], Any, bool]:
     """Open ``pdf`` with ``pw`` and compare with the model.  Returns (violations, outcome abstraction, nontrivial).
     violation = (signature, expected, observed, what)."""
     exp = expected_outcome(p, pw)
-    doc, err = open_doc(pdf, pw)
+    doc, err = open_doc(pdf, pw, before)
     v: List[Tuple[str, Any, Any, str]] = []
     if exp == "reject":
         if doc is not None:
@@ -488,7 +508,7 @@ def _program_for(cfg, em, user, owner, tier="thorough"):
         P = x.pick(P_POOL, "P")
         pu = x.flag("P-unsigned")
         ident = x.pick(ID_POOL, "ID")
-        layout = x.pick(["table", "xrefstm"], "layout")
+        layout = x.pick(["table", "xrefstm", "xrefstm0"], "layout")
         encind = x.flag("Encrypt-indirect")
         hexstr = x.flag("hex-strings")
         variant = x.choose(2, "variant")
@@ -503,8 +523,8 @@ def _program_for(cfg, em, user, owner, tier="thorough"):
     return program
 
 
-def _case_dict(p: Params, pdf: bytes, pw: str, full: bool) -> Dict[str, Any]:
-    return {"params": p.asdict(), "pdf": pdf, "password": pw, "full": full}
+def _case_dict(p: Params, pdf: bytes, pw: str, full: bool, before=()) -> Dict[str, Any]:
+    return {"params": p.asdict(), "pdf": pdf, "password": pw, "full": full, "before": list(before)}
 
 
 def run_case(p: Params, st, default: bool, first: bool) -> None:
@@ -532,6 +552,18 @@ def run_case(p: Params, st, default: bool, first: bool) -> None:
         st.add("openings_expected_" + exp, 1)
         for sig, e_, o_, what in viol:
             st.violation(sig, _case_dict(p, pdf, pw, full), e_, o_, what)
+    if default:
+        # a caller's retry loop on ONE PDFParser: wrong then right password, and right twice
+        for before in ((WRONG_PW,), (p.user,), (WRONG_PW, p.owner)):
+            pw = p.owner if len(before) == 2 else p.user
+            if expected_outcome(p, WRONG_PW) != "reject" or expected_outcome(p, pw) != "open":
+                continue
+            viol, outcome, nontrivial = judge(p, pdf, model, h, info, pw, True, before)
+            st.case(None, nontrivial=nontrivial, outcome=(p.cfg[:4], "retry", len(before), outcome))
+            st.add("openings_after_retry_on_same_parser", 1)
+            for sig, e_, o_, what in viol:
+                st.violation(sig if sig.startswith("C10/same-parser") else "C10/same-parser-retry:" + sig[4:], _case_dict(p, pdf, pw, True, before), e_, o_,
+                             what + f" [after PDFDocument(parser, {before!r}) on the same parser]")
     if first:
         st.sample({"params": p.asdict(), "pdf_len": len(pdf), "passwords_tried": len(seen), "encrypt": repr(h.encrypt_dict())[:300]})
 
@@ -550,6 +582,8 @@ def run_shard(shard, tier, st):
         return
     if shard[0] == "pair":
         return run_pair_shard(shard, tier, st)
+    if shard[0] == "pwchar":
+        return run_pwchar_shard(shard, tier, st)
     _, c, user, owner = shard
     cfg, em = c[:5], c[5]
     R = cfg[1]
@@ -566,6 +600,48 @@ def run_shard(shard, tier, st):
     st.traces += ex.traces
 
 
+# ------------------------------ every PDFDocEncoding code as a password character
+PWCHAR_CFGS = [(1, 2, 40, "RC4", True), (2, 3, 128, "RC4", True), (4, 4, 128, "V2", True), (4, 4, 128, "AESV2", True)]
+
+
+def pwchar_alphabet():
+    """(code, character) for every code of PDFDocEncoding outside ASCII letters whose character is agreed on:
+    controls 0x00-0x17 (not 0x16), accents 0x18-0x1F, 0x80-0x9E, 0xA0 (Annex D.2); plus a few Latin-1 ones."""
+    out = [(c, chr(c)) for c in range(0x18) if c != 0x16]
+    out += [(0x18 + i, ch) for i, ch in enumerate(S._PDFDOC_ACCENTS)]
+    out += sorted((code, ch) for ch, code in S._PDFDOC_EXTRA.items())
+    out += [(c, chr(c)) for c in (0x20, 0x7E, 0xA1, 0xAC, 0xAE, 0xFF)]
+    return out
+
+
+def run_pwchar_shard(shard, tier, st):
+    _, cfg, role = shard
+    alpha = pwchar_alphabet()
+    chars = dict(alpha)
+    for code, ch in alpha:
+        pw = "p" + ch + "w"
+        assert S.pdfdoc_encode(pw) == b"p" + bytes((code,)) + b"w"
+        user, owner = (pw, "owner") if role == "user" else ("user", pw)
+        p = Params(cfg=cfg[:5], em=True, user=user, owner=owner, P=-44, p_unsigned=False, ident=ID_POOL[0], layout="table",
+                   enc_indirect=False, hexstr=False, variant=0)
+        pdf, model, h, info, _ = build(p)
+        # the password itself, and the same password with the neighbouring codes' characters (must be rejected)
+        cands = [pw] + ["p" + chars[c2] + "w" for c2 in (code - 1, code + 1) if c2 in chars] + ["p" + chr(code ^ 1) + "w" if code < 0x20 else "pw"]
+        seen = set()
+        for cand in cands:
+            if cand in seen or S.pdfdoc_encode(cand) is None:
+                continue  # e.g. U+0016: no agreed encoding, not judged
+            seen.add(cand)
+            viol, outcome, nontrivial = judge(p, pdf, model, h, info, cand, False)
+            st.case(None, nontrivial=True, outcome=(cfg[:4], role, code, outcome[:2]))
+            st.transitions += 1
+            for sig, e_, o_, what in viol:
+                st.violation(sig, _case_dict(p, pdf, cand, False), e_, o_, what + f" [password character U+{ord(ch):04X} = PDFDocEncoding 0x{code:02X}, as {role} password]")
+        st.states += 1
+        st.traces += 1
+    st.sample({"pwchar": S.Cfg(*cfg[:5]).name, "role": role, "codes": len(alpha)})
+
+
 # --------------------------------------------- two documents alive at once
 PAIR_CFGS = {
     "quick": [(2, 3, 128, "RC4", True), (4, 4, 128, "V2", True), (4, 4, 128, "AESV2", True), (4, 4, 128, "Identity", True),
@@ -576,7 +652,6 @@ PAIR_CFGS = {
 # O = open with the user password, W = attempt with a wrong password, R = read the next third of the objects lazily
 # (a fourth R re-reads everything), T = extract_text() on the bytes (opens and drops a document of its own)
 PAIR_EVENTS = {"quick": ["OA", "OB", "WA", "WB", "RA", "RB"], "thorough": ["OA", "OB", "WA", "WB", "RA", "RB", "TA", "TB"]}
-WRONG_PW = "nope"
 
 
 def pair_params(cfgA, cfgB):
@@ -735,7 +810,10 @@ def replay(case):
     if pdf2 != pdf:
         out.append({"signature": "C10/harness-nondeterministic-build", "expected": len(pdf), "observed": len(pdf2)})
         return out
-    viol, _, _ = judge(p, pdf, model, h, info, case["password"], case["full"])
+    before = tuple(case.get("before") or ())
+    viol, _, _ = judge(p, pdf, model, h, info, case["password"], case["full"], before)
     for sig, e_, o_, what in viol:
+        if before:
+            sig = "C10/same-parser-retry:" + sig[4:]
         out.append({"signature": sig, "expected": repr(e_), "observed": repr(o_)})
     return out
